@@ -45,6 +45,18 @@ class RealAPI(object):
     def settle(self):
         real_time.sleep(0.05)
 
+    def spawn(self, fn):
+        import threading
+        t = threading.Thread(target=fn)
+        t.start()
+        return t
+
+    def sleep(self, d):
+        real_time.sleep(d)
+
+    def now(self):
+        return real_time.monotonic()
+
     def poll(self):
         return self.poll_cls()
 
@@ -70,6 +82,20 @@ class SimAPI(object):
     def settle(self):
         from mc import sched as S
         S.sim_time.sleep(0.05)
+
+    def spawn(self, fn):
+        from mc import sched as S
+        t = S.SimThread(target=fn)
+        t.start()
+        return t
+
+    def sleep(self, d):
+        from mc import sched as S
+        S.sim_time.sleep(d)
+
+    def now(self):
+        from mc import sched as S
+        return S.sim_time.time()
 
     def poll(self):
         return self.simos.SimPoll()
@@ -310,6 +336,39 @@ def fork_scenario(api, os_mod):
     return obs
 
 
+def other_thread_scenario(api):
+    """what a thread blocked in poll() / recv() sees when ANOTHER thread closes, or shuts down, the socket"""
+    obs = {}
+    for how in ("close", "shutdown"):
+        for call in ("poll", "recv"):
+            ls, c, s = pair(api)
+            s.settimeout(1.0)
+            out = {}
+
+            def blocked():
+                t0 = api.now()
+                if call == "poll":
+                    p = api.poll()
+                    p.register(s.fileno(), "r")
+                    r = attempt(lambda: sorted(set("".join(m for _, m in p.poll(1.0)))))
+                else:
+                    r = attempt(lambda: s.recv(10))
+                out["r"] = (r, "early" if api.now() - t0 < 0.7 else "at-timeout")
+            t = api.spawn(blocked)
+            api.sleep(0.3)
+            if how == "close":
+                s.close()
+            else:
+                s.shutdown(real_socket.SHUT_RDWR)
+            t.join(5)
+            obs["h.%s-blocked-thread-when-another-thread-does-%s" % (call, how)] = out.get("r")
+            for x in (c, ls):
+                x.close()
+            if how == "shutdown":
+                s.close()
+    return obs
+
+
 def sigchld_scenario(api, os_mod, signal_mod, now):
     """a child exiting while the parent is blocked in accept(): the SIGCHLD handler runs at once (the call is
     interrupted and retried), not when the accept time-out expires"""
@@ -366,6 +425,8 @@ def run_sim():
         simos.reset_procs()
         box["obs"].update(fork_scenario(api, simos.sim_os))
         simos.reset_kernel()
+        box["obs"].update(other_thread_scenario(api))
+        simos.reset_kernel()
         simos.reset_procs()
         box["obs"].update(sigchld_scenario(api, simos.sim_os, simos.sim_signal, S.sim_time.time))
     sch = S.Scheduler((), sync_points=False, io_points=False, horizon=1000)
@@ -382,6 +443,7 @@ def run_real():
     try:
         obs = scenarios(api)
         obs.update(fork_scenario(api, os))
+        obs.update(other_thread_scenario(api))
         import signal
         obs.update(sigchld_scenario(api, os, signal, real_time.monotonic))
         return obs
